@@ -266,3 +266,148 @@ Proof.
   - exists o'. split; [exact HD|]. split; [exact L|]. split; [exact R|].
     rewrite <- HD. now apply dump_fields_ext.
 Qed.
+
+(* ------------------------------------------------------------------ grants with their issued tokens *)
+Lemma load_fields_ext sp D D' : forall t o0,
+  (forall a ty, In (a, ty) t -> str_in a sp = false -> assoc a D = assoc a D') ->
+  load_fields t sp o0 D = load_fields t sp o0 D'.
+Proof.
+  induction t as [|[a ty] r IH]; intros o0 H; cbn [load_fields]; [reflexivity|].
+  destruct (str_in a sp) eqn:S; [apply IH; intros; eapply H; [right|]; eauto|].
+  rewrite <- (H a ty (or_introl eq_refl) S).
+  destruct (assoc a D); [|apply IH; intros; eapply H; [right|]; eauto].
+  destruct (load_attr ty p); cbn [bind]; [|reflexivity|reflexivity]. apply IH. intros; eapply H; [right|]; eauto.
+Qed.
+
+Lemma assoc_app {V} a (x y : list (pystr * V)) :
+  assoc a (x ++ y) = match assoc a x with Some v => Some v | None => assoc a y end.
+Proof. induction x as [|[b v] r IH]; cbn; [reflexivity|]. destruct (str_eqb a b); [reflexivity|exact IH]. Qed.
+
+Lemma dump_fields_keys t sp o D a : dump_fields t sp o = Ok D -> str_in a sp = true -> assoc a D = None.
+Proof.
+  revert D. induction t as [|[b ty] r IH]; intros D H S; cbn [dump_fields] in H.
+  - inversion H. reflexivity.
+  - destruct (str_in b sp) eqn:Sb; [eauto|].
+    destruct (getattr b o); [|eauto].
+    destruct (dump_attr ty p); try discriminate. cbn [bind] in H.
+    destruct (dump_fields r sp o) as [xs| |]; try discriminate. cbn [bind] in H. inversion H; subst.
+    cbn [assoc]. destruct (str_eqb a b) eqn:E; [|eauto]. apply str_eqb_eq in E. subst. congruence.
+Qed.
+
+Definition tok_agree (tabs : list (pystr * impexp_class)) (t t' : pyval) : Prop :=
+  exists f f' c, t = VObj f /\ t' = VObj f' /\ obj_class f = Some c /\
+                 agree_on (class_table tabs c) (specials_of tabs c) f f'.
+
+Lemma tok_roundtrip tabs fresh t : tok_ok tabs fresh t = true ->
+  exists x t', tok_dump tabs t = Ok x /\ tok_load tabs fresh x = Ok t' /\ tok_agree tabs t t'.
+Proof.
+  unfold tok_ok, tok_dump. destruct t as [| | | | | |f]; try discriminate.
+  destruct (obj_class f) as [c|] eqn:C; [|discriminate]. intros G. apply andb_true_iff in G as [N G].
+  destruct (obj_roundtrip _ _ _ _ N G) as (D & o' & HD & HL & HA & _).
+  rewrite HD. cbn [bind]. exists (VDict [(c, VDict D)]), (VObj o'). split; [reflexivity|].
+  cbn [tok_load]. rewrite HL. cbn [bind]. split; [reflexivity|].
+  exists f, o', c. auto.
+Qed.
+
+Lemma toks_roundtrip tabs fresh l : forallb (tok_ok tabs fresh) l = true ->
+  exists xs l', map_res (tok_dump tabs) l = Ok xs /\ map_res (tok_load tabs fresh) xs = Ok l' /\
+                Forall2 (tok_agree tabs) l l'.
+Proof.
+  induction l as [|t l IH]; cbn [forallb map_res]; intros G.
+  - exists [], []. cbn. auto.
+  - apply andb_true_iff in G as [G1 G2]. destruct (tok_roundtrip tabs fresh t G1) as (x & t' & A & B & C).
+    destruct (IH G2) as (xs & l' & A2 & B2 & C2). rewrite A, A2. cbn [bind].
+    exists (x :: xs), (t' :: l'). cbn [map_res]. rewrite B, B2. cbn [bind]. auto.
+Qed.
+
+(* a grant and the tokens it issued: dump, load into a fresh grant, and everything exported is back —
+   the grant's own attributes, each issued token's attributes (in order), and the token map *)
+Theorem grant_roundtrip tabs fresh g c :
+  obj_class g = Some c -> grant_ok tabs fresh g = true ->
+  str_in s_issued_token (specials_of tabs c) = true -> str_in s_token_map (specials_of tabs c) = true ->
+  exists D g', grant_dump tabs g = Ok D /\ grant_load tabs fresh c D = Ok g' /\
+    agree_on (class_table tabs c) (specials_of tabs c) g g' /\
+    (forall x l, getattr s_issued_token g = Some (VList (x :: l)) ->
+       exists l', assoc s_issued_token g' = Some (VList l') /\ Forall2 (tok_agree tabs) (x :: l) l') /\
+    (forall x d, getattr s_token_map g = Some (VDict (x :: d)) -> assoc s_token_map g' = Some (VDict (x :: d))).
+Proof.
+  intros C G S1 S2. unfold grant_ok in G. rewrite C in G.
+  apply andb_true_iff in G as [G G4]. apply andb_true_iff in G as [G G3]. apply andb_true_iff in G as [N G].
+  destruct (obj_roundtrip _ _ _ _ N G) as (B & o' & HB & HL & HA & _).
+  unfold grant_dump, grant_load. rewrite C, HB. cbn [bind].
+  set (t := class_table tabs c) in *. set (sp := specials_of tabs c) in *.
+  assert (Hnone1 : assoc s_issued_token B = None) by (eapply dump_fields_keys; eauto).
+  assert (Hnone2 : assoc s_token_map B = None) by (eapply dump_fields_keys; eauto).
+  assert (Hne : s_issued_token <> s_token_map) by discriminate.
+  (* the issued tokens *)
+  assert (exists IT, (match getattr s_issued_token g with
+            | Some (VList (x :: l)) => toks <- map_res (tok_dump tabs) (x :: l) ;; Ok [(s_issued_token, VList toks)]
+            | Some (VList []) | None => Ok []
+            | Some _ => Unmodelled end) = Ok IT /\
+            ((IT = [] /\ (forall x l, getattr s_issued_token g <> Some (VList (x :: l)))) \/
+             (exists x l xs l', getattr s_issued_token g = Some (VList (x :: l)) /\ IT = [(s_issued_token, VList xs)] /\
+                                map_res (tok_load tabs fresh) xs = Ok l' /\ Forall2 (tok_agree tabs) (x :: l) l'))) as (IT & HIT & HITc).
+  { destruct (getattr s_issued_token g) as [v|] eqn:E.
+    - destruct v as [| | | |l| |]; try discriminate. destruct l as [|x l].
+      + exists []. split; [reflexivity|]. left. split; [reflexivity|]. intros; discriminate.
+      + destruct (toks_roundtrip tabs fresh (x :: l) G3) as (xs & l' & A & Bq & Cq). rewrite A. cbn [bind].
+        exists [(s_issued_token, VList xs)]. split; [reflexivity|]. right. exists x, l, xs, l'. auto.
+    - exists []. split; [reflexivity|]. left. split; [reflexivity|]. intros; discriminate. }
+  rewrite HIT. cbn [bind].
+  assert (exists TM, (match getattr s_token_map g with
+            | Some (VDict (x :: d)) => Ok [(s_token_map, VDict (x :: d))]
+            | Some (VDict []) | None => Ok []
+            | Some _ => Unmodelled end) = Ok TM /\
+            ((TM = [] /\ (forall x d, getattr s_token_map g <> Some (VDict (x :: d)))) \/
+             (exists x d, getattr s_token_map g = Some (VDict (x :: d)) /\ TM = [(s_token_map, VDict (x :: d))]))) as (TM & HTM & HTMc).
+  { destruct (getattr s_token_map g) as [v|] eqn:E.
+    - destruct v as [| | | | |d|]; try discriminate. destruct d as [|x d].
+      + exists []. split; [reflexivity|]. left. split; [reflexivity|]. intros; discriminate.
+      + exists [(s_token_map, VDict (x :: d))]. split; [reflexivity|]. right. exists x, d. auto.
+    - exists []. split; [reflexivity|]. left. split; [reflexivity|]. intros; discriminate. }
+  rewrite HTM. cbn [bind]. eexists. 
+  (* load: the parameter loop sees the base export only *)
+  assert (load_fields t sp (fresh c) (B ++ IT ++ TM) = Ok o') as HL2.
+  { rewrite <- HL. apply load_fields_ext. intros a ty Ha Sa. rewrite assoc_app.
+    destruct (assoc a B); [reflexivity|]. rewrite assoc_app.
+    assert (a <> s_issued_token) as A1 by (intros ->; congruence).
+    assert (a <> s_token_map) as A2 by (intros ->; congruence).
+    apply str_eqb_neq in A1, A2.
+    destruct HITc as [[-> _]|(x & l & xs & l' & _ & -> & _)]; destruct HTMc as [[-> _]|(y & d & _ & ->)]; cbn [assoc]; rewrite ?A1, ?A2; reflexivity. }
+  assert (HI : assoc s_issued_token (B ++ IT ++ TM) = assoc s_issued_token IT).
+  { rewrite assoc_app, Hnone1, assoc_app. destruct (assoc s_issued_token IT) eqn:E; [reflexivity|].
+    destruct HTMc as [[-> _]|(y & d & _ & ->)]; [reflexivity|]. cbn [assoc].
+    assert (str_eqb s_issued_token s_token_map = false) as -> by reflexivity. reflexivity. }
+  assert (HT : assoc s_token_map (B ++ IT ++ TM) = assoc s_token_map TM).
+  { rewrite assoc_app, Hnone2, assoc_app.
+    destruct HITc as [[-> _]|(x & l & xs & l' & _ & -> & _)]; [reflexivity|]. cbn [assoc].
+    assert (str_eqb s_token_map s_issued_token = false) as -> by reflexivity. reflexivity. }
+  rewrite HL2. cbn [bind]. rewrite HI, HT.
+  assert (Hsp1 : forall a ty, In (a, ty) t -> str_in a sp = false -> a <> s_issued_token /\ a <> s_token_map).
+  { intros a ty _ Sa. split; intros ->; congruence. }
+  destruct HITc as [[-> Hno]|(x & l & xs & l' & Hg & -> & Hld & Hag)]; cbn [assoc]; rewrite ?str_eqb_refl.
+  - (* no tokens *)
+    cbn [bind]. destruct HTMc as [[-> Hno2]|(y & d & Hg2 & ->)]; cbn [assoc]; rewrite ?str_eqb_refl.
+    + eexists. split; [reflexivity|]. split; [reflexivity|]. split; [exact HA|]. split.
+      * intros x l E. exfalso. eapply Hno; eauto.
+      * intros x d E. exfalso. eapply Hno2; eauto.
+    + eexists. split; [reflexivity|]. split; [reflexivity|]. split.
+      * intros a ty Ha Sa. destruct (Hsp1 a ty Ha Sa) as [_ A2]. unfold getattr. rewrite assoc_aset_other by congruence.
+        exact (HA a ty Ha Sa).
+      * split; [intros x l E; exfalso; eapply Hno; eauto|].
+        intros x0 d0 E. rewrite Hg2 in E. inversion E; subst. apply assoc_aset_same.
+  - rewrite Hld. cbn [bind]. destruct HTMc as [[-> Hno2]|(y & d & Hg2 & ->)]; cbn [assoc]; rewrite ?str_eqb_refl.
+    + eexists. split; [reflexivity|]. split; [reflexivity|]. split.
+      * intros a ty Ha Sa. destruct (Hsp1 a ty Ha Sa) as [A1 _]. unfold getattr. rewrite assoc_aset_other by congruence.
+        exact (HA a ty Ha Sa).
+      * split.
+        -- intros x0 l0 E. rewrite Hg in E. inversion E; subst. exists l'. split; [apply assoc_aset_same|exact Hag].
+        -- intros x0 d E. exfalso. eapply Hno2; eauto.
+    + eexists. split; [reflexivity|]. split; [reflexivity|]. split.
+      * intros a ty Ha Sa. destruct (Hsp1 a ty Ha Sa) as [A1 A2]. unfold getattr.
+        rewrite assoc_aset_other by congruence. rewrite assoc_aset_other by congruence. exact (HA a ty Ha Sa).
+      * split.
+        -- intros x0 l0 E. rewrite Hg in E. inversion E; subst. exists l'. split; [|exact Hag].
+           rewrite assoc_aset_other by exact (not_eq_sym Hne). apply assoc_aset_same.
+        -- intros x0 d0 E. rewrite Hg2 in E. inversion E; subst. apply assoc_aset_same.
+Qed.
